@@ -3,6 +3,6 @@ namespace Kestrel
 open Generated
 
 /-- encrypt.rs::pass_encrypt — key derived, then magic, salt, flush  (properties: C02 C06) -/
-theorem gen_flow_encrypt_rs_pass_encrypt : flow_encrypt_rs_pass_encrypt = ["scrypt", "write_all", "write_all", "flush"] := rfl
+theorem gen_flow_encrypt_rs_pass_encrypt : flow_encrypt_rs_pass_encrypt = ["scrypt", "write_all", "write_all", "flush", "call:encrypt_chunks"] := rfl
 
 end Kestrel
